@@ -6,15 +6,15 @@ Binding B: a family of definitions (element kinds x array kinds x nesting 1-3 x 
 (min, max, extent, fixed_length, byte alignment of the type and of every field offset, ==, hash) for capacity exponents
 1..63 with the solver hooks on; every recorded event is validated by TLC against the design (TraceSolver.tla: reduced
 counts, residue bounds, no expansion of a large set during the queries).  The relational statement is decided on a
-deterministic operation count (bytecode instructions executed inside pydsdl/_bit_length_set, counted with sys.monitoring): identical for capacities that agree
-modulo the divisors in play, and below a fixed budget.  Wall time is reported, never judged.
+deterministic operation count (bytecode instructions executed inside pydsdl/_bit_length_set, counted with sys.monitoring): not growing with the capacity
+from 2**16 elements upward, and below a fixed budget.  Wall time is reported, never judged.
 """
 from __future__ import annotations
 import json, os, subprocess, sys, time
 from .. import core, tlc, tlaval, dsdlio, records
 
 EXPS = [1, 4, 8, 16, 32, 63]
-ELEMS = {"bit": "bool", "byte": "uint8", "subbyte": "ns.Sub.1.0", "varcomp": "ns.VarComp.1.0", "u13": "uint13"}
+ELEMS = {"bit": "bool", "byte": "uint8", "subbyte": "ns.Sub.1.0", "varcomp": "ns.VarComp.1.0", "u13": "uint13", "empty": "ns.Empty.1.0"}
 HANG_S = 180
 BUDGET = 40_000_000
 
@@ -96,13 +96,17 @@ print(json.dumps(out))
 def family(e: int):
     """DSDL namespaces parameterised by the capacity 2**e (and 2**e - 1, 2**e + 3 for non-aligned remainders)."""
     cap = 2 ** e
-    fs = {"ns/Sub.1.0.dsdl": "uint3 a\n@sealed\n", "ns/VarComp.1.0.dsdl": "uint8[<=7] v\n@sealed\n"}
+    fs = {"ns/Sub.1.0.dsdl": "uint3 a\n@sealed\n", "ns/VarComp.1.0.dsdl": "uint8[<=7] v\n@sealed\n", "ns/Empty.1.0.dsdl": "@sealed\n"}
     n = 0
     for ek, et in ELEMS.items():
         for kind in ("fix", "var"):
             arr = "%s[%d]" % (et, cap) if kind == "fix" else "%s[<=%d]" % (et, cap)
             n += 1
             fs["ns/L1_%s_%s.1.0.dsdl" % (ek, kind)] = "bool flag\n%s items\nuint5 tail\n@sealed\n" % arr
+        # a huge fixed-length part next to a small variable-length one: the set is narrow (few elements, small span) yet
+        # expanding it numerically would cost time proportional to the capacity
+        fs["ns/Narrow_%s_a.1.0.dsdl" % ek] = "%s[%d] big\nuint8[<=2] small\n@sealed\n" % (et, cap)
+        fs["ns/Narrow_%s_b.1.0.dsdl" % ek] = "bool[<=3] small\n%s[%d] big\nuint3 t\n@sealed\n" % (et, cap)
     # nesting 2 and 3: arrays of composites that contain big arrays; delimited wrappers with big extents
     fs["ns/Inner.1.0.dsdl"] = "uint8[<=%d] data\nuint2 x\n@sealed\n" % cap
     fs["ns/L2.1.0.dsdl"] = "ns.Inner.1.0[<=%d] inners\nbool b\nns.Inner.1.0[3] three\n@sealed\n" % cap
@@ -139,14 +143,15 @@ def signature(events):
     return sig
 
 def run(ctx):
-    ctx.rule = ("A family of 17 definitions (element kinds bit / byte / 13-bit / sub-byte composite / variable-length "
-                "composite x fixed / variable arrays, nesting 2 and 3, delimited wrappers, a union) is instantiated for capacity "
+    ctx.rule = ("A family of %d definitions (element kinds bit / byte / 13-bit / sub-byte composite / variable-length "
+                "composite / zero-length composite x fixed / variable arrays, narrow sets with a huge fixed part, nesting 2 and 3, "
+                "delimited wrappers, a union) is instantiated for capacity " % (len(family(8)) - 3) +
                 "exponents 1, 4, 8, 16, 32, 63, read twice and queried (min, max, extent, fixed_length, byte alignment of the "
                 "type and every field offset, ==, hash) in a subprocess with the solver hooks on; every solver event is "
                 "validated by TLC; bytecodes executed inside the bit length set package are counted. Non-trivial = "
                 "repetition event with a count >= 2 * divisor; distinct by event signature")
-    ctx.assumptions = ["wall time and memory as such are not decided; the decided statement is the operation-count form: equal "
-                       "counts for capacities >= 2**8 and a fixed budget (4 * 10^7 instructions, ~9x the unchanged tree)",
+    ctx.assumptions = ["wall time and memory as such are not decided; the decided statement is the operation-count form: no growth of the "
+                       "count from 2**16 elements upward and a fixed budget (4 * 10^7 instructions, ~9x the unchanged tree)",
                        "TLC's evaluation of the specification"]
     cfg = "BLS_lemma_quick.cfg" if ctx.tier == "quick" else "BLS_lemma_thorough.cfg"
     res = tlc.run("BitLengthSets", cfg, tag="c16lemma", timeout=3000)
@@ -189,17 +194,17 @@ def run(ctx):
     big = [e for e in sorted(per_e) if e >= 8 and not per_e[e]["over"]]
     ctx.extra["ops_by_exponent"] = {str(e): per_e[e]["ops"] for e in sorted(per_e)}
     ctx.extra["wall_by_exponent_s"] = {str(e): round(per_e[e]["wall"], 2) for e in sorted(per_e)}
-    if big:
-        ref = big[0]
-        for e in big[1:]:
-            if signature(per_e[e]["events"]) != signature(per_e[ref]["events"]):
-                ctx.violation({"kind": "cost", "case": {"capacity_exponent": e, "reference": ref},
-                               "diff": [("solver event signature depends on the capacity", len(per_e[e]["events"]), len(per_e[ref]["events"]))]})
-            if per_e[e]["ops"] != per_e[ref]["ops"]:
-                ctx.violation({"kind": "cost", "case": {"capacity_exponent": e, "reference": ref},
-                               "diff": [("operation count depends on the capacity", per_e[e]["ops"], per_e[ref]["ops"])]})
-            if per_e[e]["obs"][0][4:] != per_e[ref]["obs"][0][4:]:
-                pass
+    # A threshold below which small arrays are treated specially would be legitimate, so capacities are compared from
+    # 2**16 elements upward only, and only *growth* of the work with the capacity is a violation (equal or less is fine;
+    # a difference in the event signature alone is reported as a note).
+    big = [e for e in big if e >= 16]
+    for e1, e2 in zip(big, big[1:]):
+        if per_e[e2]["ops"] > per_e[e1]["ops"]:
+            ctx.violation({"kind": "cost", "case": {"capacity_exponent": e2, "reference": e1},
+                           "diff": [("the operation count grows with the capacity", per_e[e2]["ops"], per_e[e1]["ops"])]})
+        elif signature(per_e[e2]["events"]) != signature(per_e[e1]["events"]) or per_e[e2]["ops"] != per_e[e1]["ops"]:
+            ctx.note("solver work differs between capacity exponents %d and %d without growing (%d vs %d operations)"
+                             % (e1, e2, per_e[e1]["ops"], per_e[e2]["ops"]))
     ctx.sample({"capacity_exponents": exps, "ops_by_exponent": ctx.extra["ops_by_exponent"]})
 
 def replay(ctx, rec):
